@@ -83,7 +83,7 @@ theorem Enforcement_frame (F : Nat → Bytes → Bytes) (s s' : Sys) (op : Op) (
 
 /-- the frame is not vacuous: refusals exist, and `panic` is really excluded (a panicking revoke at the
     u64 edge has dropped `next_holder_commit_info` in memory) -/
-example : (step shaF (runH shaF init [] [.setup, .validate 0 0 .valid true, .activate]).1 (.revoke 5)).2.res.isErr = true := by
+example : (step shaF (runH shaF init [] [.setup, .validate 0 0 .valid true, .activate]).1 (.revoke 5 true)).2.res.isErr = true := by
   decide
 
 /-! ### Durability: what did not persist did not change (channel-level instance used by C11)
@@ -152,20 +152,20 @@ validate 1, sign 0, revoke 1 returns the secret of the signed commitment 0; with
 request is refused (second example).  The first example is the repaired model refusing. -/
 
 example : ((runH shaF init [] [.setup, .validate 0 0 .valid true, .activate, .validate 1 1 .valid true,
-    .signHolder 0, .revoke 1]).2.map (fun e => (e.2.res, e.2.secret, e.2.signed))).take 2 =
+    .signHolder 0, .revoke 1 true]).2.map (fun e => (e.2.res, e.2.secret, e.2.signed))).take 2 =
     [(.errPolicy, none, none), (.ok, none, some 0)] := by decide
 
 /-! ### Non-vacuity -/
 
 /-- a history with a signature and disclosed secrets, disjoint as the theorem says -/
 example : ((runH shaF init [] [.setup, .validate 0 0 .valid true, .activate, .validate 1 1 .valid true,
-    .revoke 1, .validate 2 2 .valid true, .revoke 2, .signHolder 2, .getSecret 0, .getSecret 1, .getSecret 2]).2.map
+    .revoke 1 true, .validate 2 2 .valid true, .revoke 2 true, .signHolder 2, .getSecret 0, .getSecret 1, .getSecret 2]).2.map
     (fun e => (e.2.res, e.2.secret, e.2.signed))).take 4 =
     [(.errPolicy, none, none), (.ok, some 1, none), (.ok, some 0, none), (.ok, none, some 2)] := by decide
 
 /-- redundant signing of the not yet validated next commitment closes the channel; nothing is revoked later -/
 example : ((runH shaF init [] [.setup, .validate 0 0 .valid true, .activate, .signRedundant 1 1 true,
-    .validate 1 1 .valid true, .revoke 1]).2.map (fun e => (e.2.res, e.2.signed))).take 3 =
+    .validate 1 1 .valid true, .revoke 1 true]).2.map (fun e => (e.2.res, e.2.signed))).take 3 =
     [(.errPolicy, none), (.errPolicy, none), (.ok, some 1)] := by decide
 
 end VlsModel.Props.C02
